@@ -866,3 +866,35 @@ Proof.
   - destruct (life_no_exit_before _ _ _ _ R) as [NE _].
     rewrite (proj1 (count_occ_not_In ev_eq_dec (tr s') EExit) NE). auto.
 Qed.
+
+(* the loop on the model's own kernel is one of the oracle-driven runs *)
+Lemma runk_is_run : forall fuel s, exists os, run os s = runk fuel s.
+Proof.
+  induction fuel as [|f IH]; intros s; simpl.
+  - exists []. auto.
+  - destruct (IH (iter (kern_o s) s)) as [os E].
+    exists (kern_o s :: os). simpl. rewrite E. auto.
+Qed.
+
+(* every state the loop can be in between two kernel calls satisfies the invariant *)
+Lemma reach_Inv : forall b sc os s, runs b sc os = (s, false) -> Inv s /\ bk s = b.
+Proof.
+  intros b sc os s R. unfold runs in R. destruct (Inv_start b sc) as [I B].
+  pose proof (Inv_run _ _ _ _ I R) as [A C]. split; auto. congruence.
+Qed.
+
+(* non-vacuity: a run with read, close, clear and exit callbacks *)
+Definition example_script : script :=
+  mkScr 8 [(1, KUnix); (2, KUnix); (3, KUnix)]
+        [[AAdd 3; AAdd 2; AAdd 1; AWrite 1 5; AWrite 3 5]]
+        [mkT 1 5 (AWrite 2 7); mkT 2 7 (AShut 2)].
+
+Example life_nonvacuous : forall b, exists os s,
+  runs b example_script os = (s, true) /\
+  In (ERead 2 7) (tr s) /\ In (EClose 2) (tr s) /\ In (EClear 1) (tr s) /\ In (EClear 3) (tr s) /\
+  hd EWake (tr s) = EExit.
+Proof.
+  intros b. destruct (runk_is_run 10 (start b example_script)) as [os E].
+  exists os, (fst (runk 10 (start b example_script))).
+  unfold runs. rewrite E. destruct b; vm_compute; repeat split; auto 20.
+Qed.
